@@ -101,6 +101,17 @@ func (m *parserModel) isUnknownAppend(in ssa.Instruction) (*ssa.Call, bool) {
 	return nil, false
 }
 
+// stringArgs: the arguments of a call whose type is string, in order.
+func stringArgs(c *ssa.Call) []ssa.Value {
+	var out []ssa.Value
+	for _, a := range c.Call.Args {
+		if typeString(a.Type()) == "string" {
+			out = append(out, a)
+		}
+	}
+	return out
+}
+
 // verifiedOnceFlags: variables (phis of constants: a bool, or an enumeration) that leave their initial value only
 // after a verbatim ChildText append executed for the current token. The map gives the initial value (false / the
 // constant the append is guarded by).
@@ -254,7 +265,8 @@ func rC08Record(w *World, r *Report) {
 			return
 		}
 		n++
-		args := c.Call.Args
+		// (name, verbatim): the first two string arguments (an unused node parameter may have been dropped)
+		args := append([]ssa.Value{nil}, stringArgs(c)...)
 		good := len(args) >= 3
 		why := ""
 		if good {
